@@ -4,6 +4,8 @@
      - returns a non-OK status, has had exactly the first `budget` bytes of bs accepted and leaves
        the stream exhausted when budget < |bs| (so that every later write of >= 1 byte fails too).
    Statements only; proofs in PrimFacts, ObjFacts, VaFacts, SliceFacts, FileFacts. *)
+From Sbdf Require Import ImpCall Gen.Prog ImpFacts ImpFacts7 ImpFactsFrame.
+From Coq Require Import List.
 From Sbdf Require Import File PrimFacts SevenBit ObjFacts VaFacts SliceFacts MdFacts TmFacts FileFacts.
 
 (* the meaning of wspec for a fresh stream *)
@@ -77,3 +79,36 @@ Print Assumptions C13_file.
 Example C13_nonvacuous :
   wrun (write_string false [104; 105]) 5 = (SBDF_ERROR_IO, [2; 0; 0; 0; 104]) /\ wrun (write_string false [104; 105]) 6 = (SBDF_OK, [2; 0; 0; 0; 104; 105]).
 Proof. split; vm_compute; reflexivity. Qed.
+
+(* ---- writers of the framing layer and the packed-length writer, from the source (Gen/Prog.v,
+   translated on every run): under EVERY budget of the output stream the bytes accepted are the
+   first `budget` bytes of the encoding and the status is OK exactly when all of them were
+   accepted - a failed fwrite is returned by the function that met it and by every caller above it
+   (sbdf_write_int8 <- sbdf_sec_write <- sbdf_fh_write_cur). *)
+Theorem C13_source_fh_write_cur : forall B, 0 <= B ->
+  exists f0, forall f, (f0 <= f)%nat -> exists fin,
+    callE prog_env f prog_sbdf_fh_write_cur [tok] [] B = OReturn (VInt (if 5 <=? B then SBDF_OK else SBDF_ERROR_IO)) fin /\
+    outb fin = ztake B enc_header.
+Proof. exact fh_write_cur_source. Qed.
+Print Assumptions C13_source_fh_write_cur.
+
+Theorem C13_source_sec_write : forall id B, int_min <= id <= int_max -> 0 <= B ->
+  exists f0, forall f, (f0 <= f)%nat -> exists fin,
+    callE prog_env f prog_sbdf_sec_write [tok; VInt id] [] B = OReturn (VInt (if 3 <=? B then SBDF_OK else SBDF_ERROR_IO)) fin /\
+    outb fin = ztake B [223; 91; id mod 256].
+Proof. exact sec_write_source. Qed.
+Print Assumptions C13_source_sec_write.
+
+Theorem C13_source_vt_write : forall id B, int_min <= id <= int_max -> 0 <= B ->
+  exists f0, forall f, (f0 <= f)%nat -> exists fin,
+    callE prog_env f prog_sbdf_vt_write [tok; VInt id] [] B = OReturn (VInt (if 1 <=? B then SBDF_OK else SBDF_ERROR_IO)) fin /\
+    outb fin = ztake B [id mod 256].
+Proof. exact vt_write_source. Qed.
+Print Assumptions C13_source_vt_write.
+
+Theorem C13_source_write_7bit : forall v B, int_min <= v <= int_max -> 0 <= B ->
+  exists f0, forall f, (f0 <= f)%nat -> exists fin,
+    call_io f prog_sbdf_write_7bitpacked_int32 [VNull; VInt v] [] B = OReturn (VInt (if zlen (enc7 v) <=? B then SBDF_OK else SBDF_ERROR_IO)) fin /\
+    outb fin = ztake B (enc7 v).
+Proof. exact write7_correct. Qed.
+Print Assumptions C13_source_write_7bit.
